@@ -69,13 +69,13 @@ static void cbs_add(const char *s) {
 static unsigned mod_small(const uint8_t *p, size_t dl, unsigned m) { unsigned r = 0; for (size_t j = dl; j-- > 0;) r = (r * 256u + p[j]) % m; return r; }
 static int cmp_asc(const void *a, const void *b) {
     const uint8_t *x = a, *y = b;
-    for (size_t j = cur_dl; j-- > 0;) if (x[j] != y[j]) return x[j] < y[j] ? -1 : 1;
+    for (size_t j = cur_dl; j-- > 0;) if (x[j] != y[j]) return verif_mag(x[j] < y[j] ? -1 : 1);
     return 0;
 }
 static int cmp_desc(const void *a, const void *b) { return cmp_asc(b, a); }
 static int cmp_m10(const void *a, const void *b) {   /* (v % 10, v) lexicographic: a total order */
     unsigned x = mod_small(a, cur_dl, 10), y = mod_small(b, cur_dl, 10);
-    if (x != y) return x < y ? -1 : 1;
+    if (x != y) return verif_mag(x < y ? -1 : 1);
     return cmp_asc(a, b);
 }
 static bool pred_even(const uint8_t *e) { cbs_add(dec(e, cur_dl)); return e[0] % 2 == 0; }
